@@ -362,16 +362,29 @@ VARIANTS['C03'] = [
     V('tfhd keeps a stale base_data_offset',
       [(MP4, "        if self.base_data_offset is None:\n            self.base_data_offset = self.find_atom('moof').position\n        w = FieldWriter(self, dest)", "        w = FieldWriter(self, dest)")],
       'R03.2', 'TrackFragmentHeaderBox'),
-    V('emsg insertion does not mark the moof as moved',
+    V('neutral: emsg insertion does not mark the moof as moved (the base reset is unconditional since fix cfdb3c4)',
       [(f'{RH}/media_requests.py', "                        atom.children.insert(moof_idx + idx, emsg)\n                        moof_modified = True", "                        atom.children.insert(moof_idx + idx, emsg)")],
-      'R03.5', 'generate_media_segment'),
+      None),
     V('emsg boxes counted from one past the moof index',
       [(f'{RH}/media_requests.py', "                    for idx, emsg in enumerate(boxes):\n                        atom.children.insert(moof_idx + idx, emsg)", "                    for idx, emsg in enumerate(boxes, start=moof_idx + 1):\n                        atom.children.insert(idx, emsg)")],
       'R03.5', 'generate_media_segment'),
     V('neutral: emsg index counted from the moof index by enumerate',
       [(f'{RH}/media_requests.py', "                    for idx, emsg in enumerate(boxes):\n                        atom.children.insert(moof_idx + idx, emsg)", "                    for idx, emsg in enumerate(boxes, start=moof_idx):\n                        atom.children.insert(idx, emsg)")]),
-    V('tfdt insertion no longer forces trun data_offset',
-      [(f'{RH}/media_requests.py', "            traf.trun.flags |= mp4.TrackFragmentRunBox.data_offset_present\n", "")], 'R03.5', 'generate_media_segment'),
+    V('neutral: tfdt insertion leaves forcing the trun data_offset to the unconditional statement before encode (since fix cfdb3c4)',
+      [(f'{RH}/media_requests.py', "            traf.trun.flags |= mp4.TrackFragmentRunBox.data_offset_present\n", "")], None),
+    V('trun data_offset forced on tfdt insertion only (fix cfdb3c4 reverted, part 2)',
+      [(f'{RH}/media_requests.py', "        traf.trun.flags |= mp4.TrackFragmentRunBox.data_offset_present\n        if traf_modified:", "        if traf_modified:")],
+      'R03.7', 'generate_media_segment'),
+    V('tfhd base reset only when the moof was modified (fix cfdb3c4 reverted, part 1)',
+      [(f'{RH}/media_requests.py', "        tfhd = traf.find_child('tfhd')\n        if tfhd is not None:\n", "        tfhd = traf.find_child('tfhd')\n        if moof_modified and tfhd is not None:\n")],
+      'R03.7', 'generate_media_segment'),
+    V('trun data_offset forced for video only',
+      [(f'{RH}/media_requests.py', "        traf.trun.flags |= mp4.TrackFragmentRunBox.data_offset_present\n        if traf_modified:",
+        "        if adp_set.content_type == 'video':\n            traf.trun.flags |= mp4.TrackFragmentRunBox.data_offset_present\n        if traf_modified:")],
+      'R03.7', 'generate_media_segment'),
+    V('neutral: trun in a local when forcing its data_offset',
+      [(f'{RH}/media_requests.py', "        traf.trun.flags |= mp4.TrackFragmentRunBox.data_offset_present\n        if traf_modified:",
+        "        trun = traf.trun\n        trun.flags |= trun.data_offset_present\n        if traf_modified:")], None),
     V('second writer after encode',
       [(f'{RH}/media_requests.py', "        data = dest.getvalue()\n        status = 200", "        dest.seek(0, 2)\n        dest.write(bytes(4))\n        data = dest.getvalue()\n        status = 200")],
       'R03.4', 'generate_media_segment'),
@@ -861,9 +874,9 @@ VARIANTS['C10'] += [
 ]
 
 VARIANTS['C03'] += [
-    V('sidx removal no longer marks the moof as moved (fix 493dccc reverted)',
+    V('neutral: sidx removal no longer marks the moof as moved (fix 493dccc reverted; harmless since fix cfdb3c4 resets the base on every path)',
       [(MRQ, "            del atom.sidx\n            # a sidx box in front of the moof box means that the moof\n            # box has now moved\n            moof_modified = True\n",
-        "            del atom.sidx\n")], 'R03.5', 'generate_media_segment'),
+        "            del atom.sidx\n")], None),
     V('neutral: sidx removal marks the moof through a local',
       [(MRQ, "            del atom.sidx\n            # a sidx box in front of the moof box means that the moof\n            # box has now moved\n            moof_modified = True\n",
         "            del atom.sidx\n            sidx_removed = True\n            moof_modified = sidx_removed\n")], None),
